@@ -131,8 +131,9 @@ package gmtls
 //@ (func "(*halfConn).decrypt" noframe split-returns
 //@   (requires blk (and (not (isnil b)) (bvsge (len (field b data)) 5) (bvsle (len (field b data)) #x0000000000100000)))
 //@   (requires sep (distinct (obj hc) (obj b) (obj (field b data)) (obj (field hc inDigestBuf))))
-//@   (ghost-havoc ctc.last ctc.eqs aead.fails pad.ssl pad.full pad.good)
+//@   (ghost-havoc ctc.last ctc.eqs aead.fails aead.opens aead.ad8 pad.ssl pad.full pad.good)
 //@   (ensures accepted (=> ok (= (seq64 hc) (bvadd (old (seq64 hc)) #x0000000000000001))))
+//@   (ensures aeadseq (=> (and ok (bvugt (ghost aead.opens) (old (ghost aead.opens)))) (= (ghost aead.ad8) (old (seq64 hc)))))
 //@   (ensures macchecked (=> (and ok (not (isnil (old (field hc mac))))) (= (ghost ctc.last) 1)))
 //@   (ensures aeadchecked (=> ok (= (ghost aead.fails) (old (ghost aead.fails)))))
 //@   (ensures padkind (=> (not (= (old (field hc version)) #x0300)) (= (ghost pad.ssl) (old (ghost pad.ssl)))))
@@ -163,7 +164,9 @@ package gmtls
 //@                      (bvsge (len (field b data)) (bvadd 5 explicitIVLen)) (bvsle (len (field b data)) #x0000000000100000)))
 //@   (requires iv (=> (bvsgt explicitIVLen 0) (= explicitIVLen (cipher.bs (tag (field hc cipher)) (obj (field hc cipher))))))
 //@   (requires sep (distinct (obj hc) (obj b) (obj (field b data)) (obj (field hc outDigestBuf))))
-//@   (ensures sent (and result.0 (= (seq64 hc) (bvadd (old (seq64 hc)) #x0000000000000001)))))
+//@   (ghost-havoc aead.seals aead.ad8)
+//@   (ensures sent (and result.0 (= (seq64 hc) (bvadd (old (seq64 hc)) #x0000000000000001))))
+//@   (ensures aeadseq (=> (bvugt (ghost aead.seals) (old (ghost aead.seals))) (= (ghost aead.ad8) (old (seq64 hc))))))
 
 // tls10MAC implements macFunction over hash.Hash: the MAC is Size() bytes, computed over seq || header || data, and only
 // digestBuf's spare capacity is used as scratch.
